@@ -29,6 +29,10 @@ TIERS = {
     "quick": {"runs": 9000, "selftest": 16, "budget_s": 240, "chunk": 100},
     "thorough": {"runs": 150000, "selftest": 64, "budget_s": 1500, "chunk": 250},
 }
+# "repeating a deterministic query returns identical results" is part of C10's statement: a scenario whose results differ
+# between executions (uninitialised memory, dependence on allocator or hash state) is a violation, not a harness problem
+NONDETERMINISM_IS_VIOLATION = True
+
 RULE = (
     "run i is generated from SHA-256(VERIF_SEED:C10:i): a pool of 1-3 objects (Scores with float/int scores, ties, empty classes, "
     "easy counts, 4 flag pairs, pre-sorted/read-only caller arrays, swap-aliased views; GroupScores; binary, multiclass and stacked "
@@ -85,6 +89,8 @@ def gen_array(rnd, kind):
         data[rnd.randrange(n)] = rnd.choice([float("inf"), float("-inf")])  # thresholds beyond every score
     if kind == "thr" and n and rnd.random() < 0.06:
         data[rnd.randrange(n)] = -0.0  # the other zero
+    if kind == "rate" and n and rnd.random() < 0.06:
+        data[rnd.randrange(n)] = float("nan")  # a missing target: the answer for it is NaN, for the others unchanged
     a = {"shape": shape, "data": data, "kind": kind, "readonly": rnd.random() < 0.25,
          "scalar_as": rnd.choice(["py", "np", "0d", "int", "np32", "np16", "npint"]) if not shape else None}
     if a["scalar_as"] in ("int", "npint"):
@@ -282,6 +288,16 @@ def generate(rnd, tier):
             again = copy.deepcopy(op)
             again.pop("faults", None)
             ops.append(again)
+    for oi_, o_ in enumerate(objects):
+        if o_.get("kind") == "scores" and o_.get("dtype") in ("float32", "float16") and o_.get("pos") and rnd.random() < 0.7:
+            # a plain Python number as threshold next to single-precision scores, at the decimal value one of the scores was
+            # rounded from: the comparison is the one of the float64 value, as for the same number inside a list or array
+            v_ = round(float(rnd.choice(o_["pos"] + o_["neg"])), 1)
+            arrays.append({"shape": [], "data": [v_], "kind": "thr", "readonly": False, "scalar_as": "py"})
+            arrays.append({"shape": [1], "data": [v_], "kind": "thr", "readonly": False, "scalar_as": None, "as": "list"})
+            for xi_ in (len(arrays) - 2, len(arrays) - 1):
+                ops.insert(rnd.randrange(len(ops) + 1), {"client": 0, "obj": oi_, "op": "pointwise_cm", "x": xi_, "sshape": "flat", "idx": [0]})
+                ops.insert(rnd.randrange(len(ops) + 1), {"client": 0, "obj": oi_, "op": "cm", "x": xi_, "idx": [0]})
     if rnd.random() < 0.006:
         # one very large per-sample matrix (millions of (score, threshold) pairs): blocked / chunked code paths
         ops.insert(rnd.randrange(len(ops) + 1), {"client": 0, "op": "pointwise_big", "n": rnd.randint(2500, 6000), "m": rnd.randint(600, 1400),
